@@ -25,9 +25,10 @@
             this process keeps mapped (dlopen is keyed by path name).
    opts, ver, clock   current option set, pymoca version, logical time.
 
-   An abstract model is [src, simp, ev]: the content id of every file that the
-   compile could see plus the two option bits that change the result.  The
-   harness makes every one of these visible in the real compiled model.
+   An abstract model is [src, simp, ev, by]: the content id of every file that
+   the compile could see, the two option bits that change the result and the
+   pymoca version that compiled it.  The harness makes every one of these
+   visible in the real compiled model.
 
    Transfer is ONE step of the history (as the property quantifies); inside it
    the operators follow the code:  MtimeCheck, VersionCheck, OptionsCheck,
@@ -51,10 +52,12 @@ CONSTANTS K,                \* content ids are 1..K
           Versions,         \* pymoca versions
           Holds,            \* may the caller keep a returned codegen model alive: subset of BOOLEAN
           MaxClock,         \* bound on the logical clock (= number of edits/additions)
-          LibFoldersInKey, FreshLibHandles
+          LibFoldersInKey, FreshLibHandles,
+          Beyond            \* histories OUTSIDE the property's premise, subset of {"backdated", "split"} ({} for C20 itself)
 
-VARIABLES files, cachef, libs, held, opts, ver, clock, last
-vars == <<files, cachef, libs, held, opts, ver, clock, last>>
+VARIABLES files, cachef, libs, held, opts, ver, clock, last,
+          pending           \* a transfer that has compiled but not yet saved (only with "split" \in Beyond)
+vars == <<files, cachef, libs, held, opts, ver, clock, last, pending>>
 
 Files == {"M", "S", "L1", "A", "L2"}
 FolderOf == [M |-> "model", S |-> "model/sub", L1 |-> "lib1", A |-> "lib1", L2 |-> "lib2"]
@@ -69,7 +72,9 @@ Visible(f, o) == FolderOf[f] \in {"model", "model/sub"} \/ FolderOf[f] = o.lib
 Present(f) == files[f].c # 0
 
 Src(o) == [f \in Files |-> IF Visible(f, o) THEN files[f].c ELSE 0]
-Compile(o) == [src |-> Src(o), simp |-> o.simp, ev |-> o.ev]          \* _compile_model
+(* _compile_model: the result also depends on WHICH pymoca compiles (that is why the version is checked);
+   the harness makes the compiling version visible in the model *)
+Compile(o) == [src |-> Src(o), simp |-> o.simp, ev |-> o.ev, by |-> ver]
 
 -----------------------------------------------------------------------------
 Init == /\ files = [f \in Files |-> [c |-> IF f \in Addable \/ f \in {"A", "S"} THEN 0 ELSE 1, mt |-> 0]]
@@ -80,6 +85,7 @@ Init == /\ files = [f \in Files |-> [c |-> IF f \in Addable \/ f \in {"A", "S"} 
         /\ ver = 1
         /\ clock = 0
         /\ last = [act |-> "init"]
+        /\ pending = <<>>
 
 (* rewrite an existing file; the new mtime is later than everything so far, in particular than the cache *)
 Edit(f, k) ==
@@ -87,33 +93,33 @@ Edit(f, k) ==
     /\ clock' = clock + 1
     /\ files' = [files EXCEPT ![f] = [c |-> k, mt |-> clock + 1]]
     /\ last' = [act |-> "edit", f |-> f, k |-> k]
-    /\ UNCHANGED <<cachef, libs, held, opts, ver>>
+    /\ UNCHANGED <<cachef, libs, held, opts, ver, pending>>
 
 Add(f, k) ==
     /\ f \in Addable /\ ~Present(f) /\ clock < MaxClock
     /\ clock' = clock + 1
     /\ files' = [files EXCEPT ![f] = [c |-> k, mt |-> clock + 1]]
     /\ last' = [act |-> "add", f |-> f, k |-> k]
-    /\ UNCHANGED <<cachef, libs, held, opts, ver>>
+    /\ UNCHANGED <<cachef, libs, held, opts, ver, pending>>
 
 ChangeOptions(n) ==
     /\ n \in OptNames /\ n # opts
     /\ opts' = n
     /\ last' = [act |-> "options", o |-> n]
-    /\ UNCHANGED <<files, cachef, libs, held, ver, clock>>
+    /\ UNCHANGED <<files, cachef, libs, held, ver, clock, pending>>
 
 ChangeVersion(v) ==
     /\ v \in Versions /\ v # ver
     /\ ver' = v
     /\ last' = [act |-> "version", v |-> v]
-    /\ UNCHANGED <<files, cachef, libs, held, opts, clock>>
+    /\ UNCHANGED <<files, cachef, libs, held, opts, clock, pending>>
 
 (* the caller drops every model it got earlier: the mapped library images go away *)
 Release ==
     /\ held # <<>>
     /\ held' = <<>>
     /\ last' = [act |-> "release"]
-    /\ UNCHANGED <<files, cachef, libs, opts, ver, clock>>
+    /\ UNCHANGED <<files, cachef, libs, opts, ver, clock, pending>>
 
 -----------------------------------------------------------------------------
 (* load_model, in the order of the code *)
@@ -147,20 +153,55 @@ Transfer(mode, hold) ==
         /\ held' = IF hit /\ mode = "codegen" /\ hold THEN <<ret.funs>> ELSE held
         /\ last' = [act |-> "transfer", mode |-> mode, hold |-> hold, hit |-> hit, ret |-> ret,
                     fresh |-> [vars |-> fresh, funs |-> fresh], dev |-> dev]
-        /\ UNCHANGED <<files, opts, ver, clock>>
+        /\ pending = <<>>
+        /\ UNCHANGED <<files, opts, ver, clock, pending>>
+
+-----------------------------------------------------------------------------
+(* OUTSIDE the premise of C20 - kept in the spec to state exactly where the guarantee ends.
+
+   "backdated": a file is replaced by one whose mtime is NOT later than the cache (cp -p, tar x, rsync -t,
+                an editor/VCS that restores timestamps).  No mtime based cache can notice it.
+   "split":     transfer_model is not atomic: it reads the sources, compiles (minutes for big models) and
+                only then writes the cache file, which gets the time of the WRITE.  A file saved in an
+                editor while the compile runs is older than the cache that does not contain it.         *)
+EditBackdated(f, k) ==
+    /\ "backdated" \in Beyond
+    /\ f \in Editable /\ Present(f) /\ k # files[f].c
+    /\ files' = [files EXCEPT ![f] = [c |-> k, mt |-> files[f].mt]]
+    /\ last' = [act |-> "edit_backdated", f |-> f, k |-> k]
+    /\ UNCHANGED <<cachef, libs, held, opts, ver, clock, pending>>
+
+TransferBegin(mode) ==          \* load_model misses, _compile_model has read the sources
+    /\ "split" \in Beyond /\ mode \in Modes /\ pending = <<>>
+    /\ ~Hit(OptOf(opts), mode)
+    /\ pending' = <<[model |-> Compile(OptOf(opts)), o |-> OptOf(opts), mode |-> mode, ver |-> ver]>>
+    /\ last' = [act |-> "transfer_begin", mode |-> mode]
+    /\ UNCHANGED <<files, cachef, libs, held, opts, ver, clock>>
+
+TransferEnd ==                  \* save_model: the cache file is stamped NOW
+    /\ pending # <<>>
+    /\ cachef' = <<[model |-> pending[1].model, o |-> pending[1].o, mode |-> pending[1].mode,
+                    ver |-> pending[1].ver, mt |-> clock]>>
+    /\ libs' = IF pending[1].mode = "codegen" THEN <<pending[1].model>> ELSE libs
+    /\ pending' = <<>>
+    /\ last' = [act |-> "transfer_end", mode |-> pending[1].mode]
+    /\ UNCHANGED <<files, held, opts, ver, clock>>
 
 Next == \/ \E f \in Files, k \in 1..K : Edit(f, k) \/ Add(f, k)
         \/ \E n \in OptNames : ChangeOptions(n)
         \/ \E v \in Versions : ChangeVersion(v)
         \/ \E m \in Modes, h \in BOOLEAN : Transfer(m, h)
         \/ Release
+        \/ \E f \in Files, k \in 1..K : EditBackdated(f, k)
+        \/ \E m \in Modes : TransferBegin(m)
+        \/ TransferEnd
 
 Spec == Init /\ [][Next]_vars
 
 -----------------------------------------------------------------------------
 (* The property, stated without reference to how load_model decides *)
 
-AbstractModels == [src : [Files -> 0..K], simp : BOOLEAN, ev : BOOLEAN]
+AbstractModels == [src : [Files -> 0..K], simp : BOOLEAN, ev : BOOLEAN, by : Versions]
 Opt1(s, T) == s = <<>> \/ (Len(s) = 1 /\ s[1] \in T)
 TypeOK ==
     /\ files \in [Files -> [c : 0..K, mt : 0..MaxClock]]
@@ -204,7 +245,8 @@ HitIsReadOnly ==
 -----------------------------------------------------------------------------
 (* Quotient used for the transition graph: mtimes matter only through "newer than the cache" *)
 Newer == IF cachef = <<>> THEN {} ELSE {f \in Files : Present(f) /\ files[f].mt > C.mt}
-Proj == [files  |-> [f \in Files |-> files[f].c],
+Proj == [pending |-> pending,
+         files  |-> [f \in Files |-> files[f].c],
          newer  |-> Newer,
          cachef |-> IF cachef = <<>> THEN <<>> ELSE <<[model |-> C.model, o |-> C.o, mode |-> C.mode, ver |-> C.ver]>>,
          libs   |-> libs, held |-> held, opts |-> opts, ver |-> ver]
